@@ -217,13 +217,25 @@ func (i *Index) AddDesc(d Descriptor, opts ...IndexOpt) {
 	// Move entries from WithChildren option to childManifest list.
 	// These are from child descriptors when an index is later pushed.
 	for _, cd := range conf.children {
+		known := false
 		for mi := range i.Manifests {
 			if i.Manifests[mi].Digest == cd.Digest && len(i.Manifests[mi].Annotations) == 0 {
 				i.Manifests[mi] = i.Manifests[len(i.Manifests)-1]
 				i.Manifests = i.Manifests[:len(i.Manifests)-1]
 				i.childManifests = append(i.childManifests, cd)
+				known = true
 				break
 			}
+		}
+		// children that were never pushed as a manifest are tracked too, as they are when the index is loaded
+		for mi := 0; mi < len(i.Manifests) && !known; mi++ {
+			known = i.Manifests[mi].Digest == cd.Digest
+		}
+		for ci := 0; ci < len(i.childManifests) && !known; ci++ {
+			known = i.childManifests[ci].Digest == cd.Digest
+		}
+		if !known {
+			i.childManifests = append(i.childManifests, cd)
 		}
 	}
 	// prefer an entry that already carries the same tag or referrer
